@@ -21,6 +21,12 @@ siblings around the one variable child) with <=2 option deviations from the
 constructor defaults, at EVERY width 1..24, 40, 200, through
 list(Console.render(obj)) and Measurement.get(console, obj, width) -> returns.
 
+Part "style": every style-valued option of every renderable of the grammar over attribute
+COMBINATIONS (one option x {none, 13 attributes, 78 pairs, negations, colour/background/link};
+two options of one renderable x 16 x 16) on utf-8, ascii-only and legacy-windows consoles, so that
+code mapping a style to an index / character set sees every pair of attributes, also when the
+two come from different levels (tree root x branch, table x column x row, frame x child).
+
 Anything else (any other exception type, or > 5 s in one call) is a violation
 with finding key  <entry point>/<ExcType>/<file>:<function that raised>.
 
@@ -107,13 +113,19 @@ class _NullFile(io.StringIO):
 _CON = {}
 
 
-def console(width):
-    con = _CON.get(width)
+class _AsciiNullFile(_NullFile):
+    encoding = "ascii"
+
+
+def console(width, kind="utf8"):
+    """kind: "utf8" | "ascii" (file encoding ascii -> options.ascii_only) | "legacy" (legacy_windows=True)"""
+    con = _CON.get((width, kind))
     if con is None:
         from rich.console import Console
-        con = Console(file=_NullFile(), width=width, height=25, force_terminal=True,
-                      color_system="truecolor", legacy_windows=False, _environ={})
-        _CON[width] = con
+        con = Console(file=_AsciiNullFile() if kind == "ascii" else _NullFile(), width=width, height=25,
+                      force_terminal=True, color_system="truecolor", legacy_windows=(kind == "legacy"),
+                      _environ={})
+        _CON[(width, kind)] = con
     return con
 
 
@@ -673,6 +685,177 @@ def _part_tree(sh, tier, res):
     res.count("trees", n)
 
 
+# ------------------------------------------------------------------ part "style": style-valued options
+# Every style-valued option ("slot") of every renderable of the grammar is driven through attribute
+# COMBINATIONS: (A) one slot at a time over STYLES_A = none, the 13 attributes, all 78 attribute pairs,
+# the 13 negations, colour / background / link and every attribute together with all three;
+# (B) two slots of one host at a time over STYLES_B x STYLES_B (13 attributes + colour + background +
+# link) -- styles that are given in different places and combined by the renderer (tree levels, table /
+# column / row, panel / border / child ...). Each case on a utf-8, an ascii-only and a legacy-windows
+# console. Any code that turns a style into an index, a table key or a character set is exercised
+# with every pair of attributes set at once.
+ATTRS = ["bold", "dim", "italic", "underline", "blink", "blink2", "reverse", "conceal", "strike",
+         "underline2", "frame", "encircle", "overline"]
+STYLES_A = (["none"] + ATTRS + ["%s %s" % p for p in itertools.combinations(ATTRS, 2)]
+            + ["not " + a for a in ATTRS] + ["red", "on blue", "link u", "red on blue link u"]
+            + [a + " red on blue link u" for a in ATTRS])
+STYLES_B = ATTRS + ["red", "on blue", "link u"]
+CONSOLE_KINDS = ["utf8", "ascii", "legacy"]
+
+# host -> slots. A slot left unassigned keeps the constructor default.
+HOSTS = {
+    "text": ["style", "span"],
+    "rule": ["style", "title_style"],
+    "pbar": ["style", "complete_style", "finished_style", "pulse_style"],
+    "pbar.done": ["style", "complete_style", "finished_style", "pulse_style"],
+    "pbar.pulse": ["style", "complete_style", "finished_style", "pulse_style"],
+    "panel": ["style", "border_style", "child"],
+    "padding": ["style", "child"],
+    "align": ["style", "child"],
+    "vcenter": ["style", "child"],
+    "styled": ["style", "child"],
+    "tree": ["root.style", "root.guide_style", "child.style", "child.guide_style",
+             "grandchild.style", "grandchild.guide_style"],
+    "table": ["style", "header_style", "footer_style", "border_style", "row_styles", "title_style",
+              "caption_style", "col.style", "col.header_style", "col.footer_style", "row.style"],
+}
+# slot pairs of the table whose styles meet in one segment (quick); thorough takes all pairs
+TABLE_PAIRS_Q = [("style", "col.style"), ("style", "row.style"), ("style", "row_styles"),
+                 ("col.style", "row.style"), ("col.style", "row_styles"), ("row_styles", "row.style"),
+                 ("header_style", "col.header_style"), ("footer_style", "col.footer_style"),
+                 ("style", "border_style"), ("style", "title_style"), ("style", "caption_style"),
+                 ("style", "header_style")]
+
+
+def _style_widths(tier):
+    return [2, 40] if tier == "quick" else [1, 2, 8, 40]
+
+
+def build_host(host, a):
+    """host name + {slot: style string} -> fresh renderable"""
+    from rich.text import Text
+    g = a.get
+
+    def child():
+        return Text("ab cd", style=g("child", ""))
+
+    def kw(*names, **rename):
+        out = {}
+        for n in names:
+            if n in a:
+                out[rename.get(n, n)] = a[n]
+        return out
+
+    if host == "text":
+        t = Text("ab cd ef", style=g("style", ""))
+        if "span" in a:
+            t.stylize(a["span"], 1, 4)
+        return t
+    if host == "rule":
+        from rich.rule import Rule
+        title = Text("ti", style=a["title_style"]) if "title_style" in a else "ti"
+        return Rule(title, **kw("style"))
+    if host.startswith("pbar"):
+        from rich.progress_bar import ProgressBar
+        return ProgressBar(total=100, completed=100 if host == "pbar.done" else 30, pulse=host == "pbar.pulse",
+                           animation_time=0.0, **kw("style", "complete_style", "finished_style", "pulse_style"))
+    if host == "panel":
+        from rich.panel import Panel
+        return Panel(child(), title="ti", **kw("style", "border_style"))
+    if host == "padding":
+        from rich.padding import Padding
+        return Padding(child(), 1, **kw("style"))
+    if host == "align":
+        from rich.align import Align
+        return Align(child(), "center", **kw("style"))
+    if host == "vcenter":
+        from rich.align import VerticalCenter
+        return VerticalCenter(child(), **kw("style"))
+    if host == "styled":
+        from rich.styled import Styled
+        return Styled(child(), g("style", "none"))
+    if host == "tree":
+        from rich.tree import Tree
+
+        def sub(prefix):
+            return {k[len(prefix):]: v for k, v in a.items() if k.startswith(prefix)}
+        root = Tree(Text("r"), **sub("root."))
+        c = root.add(Text("c"), **sub("child."))
+        gc = c.add(Text("g"), **sub("grandchild."))
+        gc.add(Text("x"))
+        gc.add(Text("y"))
+        c.add(Text("h"))
+        root.add(Text("d"))
+        return root
+    if host == "table":
+        from rich.table import Table
+        tkw = kw("style", "header_style", "footer_style", "border_style", "title_style", "caption_style")
+        if "row_styles" in a:
+            tkw["row_styles"] = [a["row_styles"], "none"]
+        t = Table(title="ti", caption="cap", show_footer=True, show_lines=True, **tkw)
+        t.add_column("h", "f")
+        t.add_column("k", "e", **{k[4:]: v for k, v in a.items() if k.startswith("col.")})
+        t.add_row("a", "bb", **({"style": a["row.style"]} if "row.style" in a else {}))
+        t.add_row("ccc", "d")
+        return t
+    raise ValueError(host)
+
+
+def style_cases(tier):
+    """-> (host, {slot: style}) ; deterministic order"""
+    for host, slots in HOSTS.items():
+        yield host, {}
+        for slot in slots:
+            for st in STYLES_A:
+                yield host, {slot: st}
+        if host == "table" and tier == "quick":
+            pairs = TABLE_PAIRS_Q
+        else:
+            pairs = list(itertools.combinations(slots, 2))
+        for s1, s2 in pairs:
+            for a in STYLES_B:
+                for b in STYLES_B:
+                    yield host, {s1: a, s2: b}
+
+
+def check_style(host, assign, kind, w, res):
+    case = {"part": "style", "host": host, "assign": assign, "kind": kind, "w": w}
+    con = console(w, kind)
+
+    def render():
+        return list(con.render(build_host(host, assign), con.options))
+
+    st, segs = call(res, "render", render, (), case,
+                    "list(Console.render(...)) of host %r with styles %r on a %s console of width %d"
+                    % (host, assign, kind, w))
+    slots = tuple(sorted(assign))
+    if st == "ok":
+        segs = segs or []
+        styled = any(seg.style for seg in segs if seg.text.strip())
+        res.sig(("style", host, slots, kind, styled), nontrivial=bool(assign) and any(seg.text for seg in segs))
+    else:
+        res.sig(("style", host, slots, kind, "VIOLATION", segs))
+
+
+def _part_style(sh, tier, res):
+    n = 0
+    widths = _style_widths(tier)
+    with _Timer():
+        for idx, (host, assign) in enumerate(style_cases(tier)):
+            if idx % sh["n"] != sh["i"]:
+                continue
+            if deadline_passed() or res.counters.get("hangs_confirmed", 0) >= MAX_HANGS:
+                res.capped = True
+                break
+            n += 1
+            for kind in CONSOLE_KINDS:
+                for w in widths:
+                    check_style(host, assign, kind, w, res)
+            if idx % 2503 == 0:
+                res.sample({"part": "style", "host": host, "assign": assign, "kind": "all", "w": "all"}, limit=1)
+    res.count("style_cases", n)
+
+
 # ------------------------------------------------------------------ protocol
 def plan(tier, seed):
     shards = []
@@ -680,6 +863,8 @@ def plan(tier, seed):
     # trees first: the expensive shards start early
     nt = 48 if tier == "quick" else 192
     shards += [{"part": "tree", "i": i, "n": nt} for i in range(nt)]
+    ns = 16 if tier == "quick" else 64
+    shards += [{"part": "style", "i": i, "n": ns} for i in range(ns)]
     for fam in _families(tier):
         shards.append({"part": "tok", "fam": fam, "prefix": None, "plen": plen})
         for prefix in itertools.product(range(len(ALPHA[fam])), repeat=plen):
@@ -693,6 +878,8 @@ def run_shard(sh, tier, seed):
     t0 = time.process_time()
     if sh["part"] == "tok":
         _part_tok(sh, tier, res)
+    elif sh["part"] == "style":
+        _part_style(sh, tier, res)
     else:
         _part_tree(sh, tier, res)
     dt = time.process_time() - t0
@@ -717,6 +904,15 @@ def describe(tier, seed, res):
                 "Table, empty Columns, empty RenderGroup; containers Panel, Padding, Align, Constrain, Styled, RenderGroup "
                 "(3 sibling layouts), Columns (3), Tree (3 shapes), Table (2x2, 1x0, 1x1, 2x1, 3x2, auto columns; table + "
                 "column options). This is the <=2-deviation slice of the option product, not the full product%s. "
+                "style: every style-valued option of every renderable (Text style/span, Rule style/title, ProgressBar x4 in "
+                "running/finished/pulse state, Panel style/border_style/child, Padding, Align, VerticalCenter, Styled, Tree "
+                "style/guide_style on root, child and grandchild, Table style/header/footer/border/row_styles/title/caption + "
+                "column style/header/footer + row style) is driven (A) one option at a time through %d styles: none, the 13 "
+                "attributes, all 78 attribute pairs, the 13 negations, colour, background, link and every attribute with all "
+                "three; (B) %s of one renderable at a time through the 16 x 16 product of {13 attributes, colour, "
+                "background, link} (styles given in different places that the renderer combines: tree levels, table/column/"
+                "row, frame/border/child); each on a utf-8, an ascii-only and a legacy-windows console at widths %s through "
+                "list(Console.render()). "
                 "Outcome must be 'returns' or the documented exception of the entry point; a call is non-trivial when it "
                 "raised the documented error, parsed something, or produced visible output; distinct = (entry point | "
                 "container kinds, width class, outcome class) signatures."
@@ -725,7 +921,11 @@ def describe(tier, seed, res):
                    "" if tier == "quick" else " up to 5 tokens, plus the 14-token alphabet of DESIGN.md up to 6 (decode only)",
                    "" if tier == "quick" else " | container(container(leaf)) (first layout, core option menu)",
                    len(TEXTS_Q if tier == "quick" else TEXTS_T),
-                   "; quick uses the core option menu for Table and Columns" if tier == "quick" else ""),
+                   "; quick uses the core option menu for Table and Columns" if tier == "quick" else "",
+                   len(STYLES_A),
+                   "every pair of options (Table: the 12 pairs whose styles meet in one segment)" if tier == "quick"
+                   else "every pair of options",
+                   _style_widths(tier)),
         "assumptions": [
             "documented errors: ColorParseError (Color.parse), StyleSyntaxError (Style.parse), MissingStyle "
             "(Console.get_style), MarkupError (markup.render, Console.print with markup); nothing for Text(), "
@@ -737,6 +937,7 @@ def describe(tier, seed, res):
         ],
         "coverage": {"states": 0, "transitions": 0,
                      "trees": c.get("trees", 0), "widths_per_tree": len(WIDTHS),
+                     "style_cases": c.get("style_cases", 0), "console_kinds": CONSOLE_KINDS,
                      "token_length_bound": L},
     }
 
@@ -746,6 +947,12 @@ def replay(case):
     with _Timer():
         if case.get("part") == "tok":
             check_string(case["fam"], case["s"], res)
+        elif case.get("part") == "style":
+            kinds = CONSOLE_KINDS if case.get("kind") in (None, "all") else [case["kind"]]
+            ws = _style_widths("thorough") if case.get("w") in (None, "all") else [case["w"]]
+            for kind in kinds:
+                for w in ws:
+                    check_style(case["host"], case["assign"], kind, w, res)
         else:
             ws = WIDTHS if case.get("w") in (None, "all") else [case["w"]]
             for w in ws:
@@ -764,5 +971,6 @@ LEVEL_TEXT = ("Every token sequence within the bound is fed to the real parsers/
               "grammar is rendered and measured at every listed width; each call must return or raise the documented error "
               "of its entry point. Exhaustive inside the stated bounds; nothing is sampled. The oracle needs no model: the "
               "judged observable is the exception type at the public entry point.")
-LEVEL_NOTE = ("Trusted: CPython, the 40-line judge in vf/checks/c14.py. Bounds: <=4 (quick) / <=6 (thorough) tokens; trees of "
+LEVEL_NOTE = ("Trusted: CPython, the 40-line judge in vf/checks/c14.py. Bounds: <=4 (quick) / <=6 (thorough) tokens; style "
+              "options: one option x 122 styles, two options x 16 x 16, 3 console kinds; trees of "
               "depth <=2 (quick) / <=3 (thorough) with <=2 option deviations; 26 widths.")
